@@ -42,6 +42,11 @@ pub fn positions() -> Vec<(&'static str, Ty, Box<dyn Fn(Enc) -> Enc + Sync + Sen
         ("header.key_among_others", Ty::Header, Box::new(|h| m(vec![(c(&u(99)), c(&u(0))), (h, c(&u(1))), (c(&gen::t("z")), c(&u(0))), (c(&i(-70000)), c(&u(0)))]))),
         ("key.key_among_others", Ty::Key, Box::new(|h| m(vec![(c(&u(1)), c(&u(1))), (c(&u(1000)), c(&u(0))), (h, c(&b(b"\x01"))), (c(&gen::t("z")), c(&u(0))), (c(&i(-70000)), c(&u(0)))]))),
         ("claims.key_among_others", Ty::Claims, Box::new(|h| m(vec![(c(&u(8)), c(&u(0))), (h, c(&u(1))), (c(&gen::t("z")), c(&u(0))), (c(&i(-70000)), c(&u(0)))]))),
+        // interpreting positions late in a map that is not in canonical order
+        ("header.alg_after_text", Ty::Header, Box::new(|h| m(vec![(c(&gen::t("a")), c(&u(0))), (c(&u(1)), h)]))),
+        ("header.content_type_after_text", Ty::Header, Box::new(|h| m(vec![(c(&gen::t("a")), c(&u(0))), (c(&i(-70000)), c(&u(0))), (c(&u(3)), h)]))),
+        ("key.alg_seventh", Ty::Key, Box::new(|h| m(vec![(c(&u(1)), c(&u(2))), (c(&i(-1)), c(&u(1))), (c(&i(-2)), c(&b(b"x"))), (c(&i(-3)), c(&b(b"y"))), (c(&i(-4)), c(&b(b"d"))), (c(&gen::t("t")), c(&u(0))), (c(&u(3)), h)]))),
+        ("key.key_ops_eighth", Ty::Key, Box::new(|h| m(vec![(c(&u(1)), c(&u(2))), (c(&i(-1)), c(&u(1))), (c(&i(-2)), c(&b(b"x"))), (c(&i(-3)), c(&b(b"y"))), (c(&i(-4)), c(&b(b"d"))), (c(&gen::t("t")), c(&u(0))), (c(&u(1000)), c(&u(0))), (c(&u(4)), a(vec![c(&u(1)), h]))]))),
         ("header.alg", Ty::Header, Box::new(|h| m(vec![(c(&u(1)), h)]))),
         ("key.alg", Ty::Key, Box::new(|h| m(vec![(c(&u(1)), c(&u(1))), (c(&u(3)), h)]))),
         ("kdf.alg", Ty::Kdf, Box::new(move |h| a(vec![h, party(), party(), supp()]))),
